@@ -40,6 +40,7 @@ package main
 //             stub that was entered was released because Engine.Run had returned) | deadline (one waited blkMax) | -
 //   further input tokens: cancel=at:<point>, hold=…, sig=… (sched.go), cli=run|int|term (the run goes through
 //   cli.runEngine + cli.awaitPandoraTermination), pool tokens rg:<registered gun> and su:<startup schedule> (real.go)
+//   nc=1 (top-level token): the harness does not cancel its own context between the return of Engine.Run and Engine.Wait
 //   canc=1: the planned cancel fired before Engine.Run returned. lat: time from that cancel to the return of
 //   Engine.Run (fast < 500 ms, slow > 1500 ms; a "slow:" component ignores its context for 2 s).
 
@@ -122,6 +123,7 @@ type poolSpec struct {
 	rs                string // "" (all tokens at once) | step (tokens rsMs apart: the Waiter's timer path) | past (tokens 3 s overdue) | late (use.go)
 	rsMs              int
 	do                bool // discard_overflow
+	rp                *rpSpec // rp:<kind>.<k>.<tail>: the provider is one of the repo's own over a source the harness writes (prov.go)
 }
 
 type plan struct {
@@ -132,6 +134,7 @@ type plan struct {
 	cancelAt   *pointRef
 	holds      []holdRule
 	cli        string // "" | run | int | term
+	noCancel   bool   // nc=1: the caller does NOT cancel its context after Engine.Run returned (a library user that only calls Wait)
 	cliVar     string // "" | 2 (int2 / term2: a second signal while Engine.Wait is blocked) | T (runT: the tasks of a failed run outlast the cli's 3 s await timeout)
 	sigAt      *pointRef
 	rep        int
@@ -267,6 +270,12 @@ func parsePool(s string) (poolSpec, error) {
 			}
 		case "do":
 			ps.do = v == "1"
+		case "rp":
+			if v != "-" {
+				var r rpSpec
+				r, err = parseRp(v)
+				ps.rp = &r
+			}
 		case "blk":
 			if v == "-" {
 				break
@@ -392,6 +401,7 @@ func parsePlan(input string) (*plan, error) {
 	default:
 		return nil, fmt.Errorf("bad cli %q", kv["cli"])
 	}
+	pl.noCancel = kv["nc"] == "1"
 	if sg := kv["sig"]; sg != "" && sg != "-" {
 		r, err := parsePointRef(sg)
 		if err != nil {
@@ -1045,9 +1055,17 @@ func runCase(input string) string {
 			anyReal = true
 		}
 		rts = append(rts, p)
+		var prov core.Provider = provMock{p}
+		if ps.rp != nil {
+			inner, err := realProvider(*ps.rp)
+			if err != nil {
+				return "NOREAL " + sanitize(err.Error())
+			}
+			prov = provReal{p: p, inner: inner}
+		}
 		conf.Pools = append(conf.Pools, engine.InstancePoolConfig{
 			ID:              fmt.Sprintf("p%d", i),
-			Provider:        provMock{p},
+			Provider:        prov,
 			Aggregator:      aggMock{p},
 			NewGun:          p.newGun,
 			RPSPerInstance:  ps.per,
@@ -1170,7 +1188,11 @@ func runCase(input string) string {
 	if pl.cli != "" && cancelled != 0 && retAt.Load() != 0 && cancelled > retAt.Load() {
 		cancelled = 0 // the signal came after Engine.Run had returned
 	}
-	cancel()
+	if !pl.noCancel || pl.cli != "" {
+		cancel()
+	}
+	// nc=1: whoever only waits for Engine.Wait (no cancel of its own after Run returned) must get it back too: the
+	// engine's own deferred cancel is what stops the pools that are still running
 	waited := make(chan struct{})
 	go func() { e.Wait(); close(waited) }()
 	waitOK := true
